@@ -14,7 +14,7 @@ import (
 func init() { register("C20", c20) }
 
 func c20(p *an.Prog, r *an.R, tier string) {
-	r.Explanation = "C20 (structural clauses): every successful scheduler.Acquire in package search is followed on all paths by process.Release; inside multiScheduler.Acquire a slot acquired on a semaphore is never dropped on a return path, the captured `sem` is released only when non-nil and reset to nil right after, it is set only after a successful Acquire on the same semaphore, and no slot is released through any other expression; Acquire/Release weights on each x/sync semaphore agree; sema.Acquire counts 'running' only on success and Acquire functions return an error only from the context-dependent semaphore call. Does NOT decide the occupancy bound itself (delegated to x/sync/semaphore) nor liveness."
+	r.Explanation = "C20 (structural clauses): every successful scheduler.Acquire in package search is followed on all paths by process.Release; inside multiScheduler.Acquire a slot acquired on a semaphore is never dropped on a return path, the captured `sem` is released only when non-nil and reset to nil right after, it is set only after a successful Acquire on the same semaphore, and no slot is released through any other expression; Acquire/Release weights on each x/sync semaphore agree; sema.Acquire counts 'running' only on success and Acquire functions return an error only from the context-dependent semaphore call. The function installed as process.releaseFunc examines the held slot on every path. Does NOT decide the occupancy bound itself (delegated to x/sync/semaphore) nor liveness."
 	r.Rule("C20.R1", "every scheduler.Acquire site: on the err==nil path every way to the function exit passes `defer proc.Release()` or proc.Release()")
 	r.Rule("C20.R2", "typestate of the captured sem in multiScheduler.Acquire: Release only on `sem` itself under sem != nil and followed by sem = nil; sem = X only after X.Acquire(ctx) succeeded; after a successful Acquire in an Acquire function no return drops the slot")
 	r.Rule("C20.R3", "for each x/sync semaphore value, the weights of Acquire and Release agree (same constant or same variable)")
